@@ -14,7 +14,7 @@ RULE = ("cases: (a) protocol histories host_commit -> signer_commit -> s2c_sign 
         "keys from the edge-biased key strategy, messages incl. 0 and >= n (and the msg-n alias), data / host randomness from edge patterns; re-run with the same rho "
         "(same opening) and with another rho (different opening, different r); invalid keys; (b) ALL single-bit flips of datum (256), serialized opening (264, re-parsed), "
         "r (256) and s (256) of sampled honest triples: verify_commit / host_verify verdicts decided by pyref.s2c (flips in s: verify_commit must stay 1 by documented design "
-        "and anti_exfil_host_verify decides); (c) sampled substitutions: other datum, other parseable opening (negated, shifted, from another run, G), signature of another run, "
+        "and anti_exfil_host_verify decides); (c) sampled substitutions: other datum, other parseable opening (negated, endomorphism images (beta^j x, +-y), shifted, from another run, G), r / s multiplied by lambda^j, public key lambda^j Q, signature of another run, "
         "malformed opening encodings, wrong key / message for host_verify.  non-trivial = message >= n, a non-default context, or a mutated input")
 ASSUMPTIONS = ["pyref.s2c (tagged hashes s2c/ecdsa/data and s2c/ecdsa/point over ser33(opening) || data, RFC 6979 derivation with the hashed datum as extra entropy) is a "
                "correct reading of the header and DESIGN Appendix A; frozen after agreeing with the library on honest runs",
@@ -376,9 +376,9 @@ def _run_sweep(env, case, cx):
 
 
 # ------------------------------------------------------------------ (c) sampled substitutions
-OPENING_SUBS = ["neg", "plus_g", "other_run", "G", "data_swapped_run"] + ["same"] * 7
+OPENING_SUBS = ["neg", "plus_g", "other_run", "G", "data_swapped_run", "lambda", "neg_lambda"] + ["same"] * 8
 DATA_SUBS = ["other", "zero", "ones", "hash_of_data"] + ["same"] * 8
-SIG_SUBS = ["other_run", "high_s", "r_plus_1", "s_plus_1", "r_is_opening_x", "zero_s"] + ["same"] * 6
+SIG_SUBS = ["other_run", "high_s", "r_plus_1", "s_plus_1", "r_is_opening_x", "zero_s", "s_lambda", "r_lambda"] + ["same"] * 7
 ENC_SUBS = ["x_ge_p", "offcurve", "prefix", "x_plus_p"]
 
 
@@ -418,12 +418,17 @@ def _run_subst(env, case, cx):
     rr_o, ss_o = compact(env, sig_o)
     O_o = S.parse_opening(op_serialize(env, V, op_o))
     # substitutions
-    Ov = {"neg": ec.neg(O), "plus_g": ec.add(O, ec.G), "other_run": O_o, "G": ec.G, "data_swapped_run": O_o, "same": O}[case["opening"]]
+    # endomorphism images: lambda^j * (x, y) = (beta^j x, y) -- "algebraically related wrong values" (same y^2, other x); scalars times lambda^j
+    jj = 1 + case["a"] % 2
+    Olam = (O[0] * pow(ec.BETA, jj, P) % P, O[1])
+    Ov = {"neg": ec.neg(O), "plus_g": ec.add(O, ec.G), "other_run": O_o, "G": ec.G, "data_swapped_run": O_o, "same": O,
+          "lambda": Olam, "neg_lambda": ec.neg(Olam)}[case["opening"]]
     dv = {"other": data2, "zero": bytes(32), "ones": b"\xff" * 32, "hash_of_data": S.data_hash(data), "same": data}[case["datum"]]
     if case["opening"] == "data_swapped_run":
         dv = data2
     rv, sv = {"other_run": (rr_o, ss_o), "high_s": (rr, N - ss), "r_plus_1": ((rr + 1) % N, ss), "s_plus_1": (rr, (ss + 1) % N),
-              "r_is_opening_x": (O[0] % N, ss), "zero_s": (rr, 0), "same": (rr, ss)}[case["sig"]]
+              "r_is_opening_x": (O[0] % N, ss), "zero_s": (rr, 0), "same": (rr, ss),
+              "s_lambda": (rr, ss * pow(ec.LAMBDA, jj, N) % N), "r_lambda": (rr * pow(ec.LAMBDA, jj, N) % N, ss)}[case["sig"]]
     mutated = not (Ov == O and dv == data and (rv, sv) == (rr, ss))
     if Ov is None:
         return False, classes
@@ -441,6 +446,11 @@ def _run_subst(env, case, cx):
     classes.append("host:%d" % goth)
     if not mutated:
         env.require(got == 1 and goth == 1, "honest triple rejected")
+        # the signer's key replaced by its endomorphism image
+        Ql = (Q[0] * pow(ec.BETA, jj, P) % P, Q[1])
+        expl = ecdsa.verify(rr, ss, msg32, Ql)
+        env.require(host_verify(env, V, sig, msg32, lib.pubkey_from_point(Ql), data, op) == (1 if expl else 0), "host_verify verdict wrong for the public key lambda^j * Q")
+        classes.append("pubkey:lambda")
     # malformed opening encodings never parse
     o33 = bytearray(ec.ser33(O))
     x = O[0]
@@ -478,5 +488,6 @@ TESTS = [
     Test("bit_sweep", sweep_enum, run_sweep, kind="enum", cfgs=PROD, must_cover=["swept", "msg_ge_n", "opening_flips_parsed:some", "ctx:own_sha"]),
     Test("bit_sweep_vsan", sweep_enum_vsan, run_sweep, kind="enum", cfgs=VSAN, max_workers=2, must_cover=["swept"]),
     Test("substitutions", subst_case, run_subst, quick=2500, thorough=80000, max_workers=3,
-         must_cover=["commit:0", "commit:1", "host:0", "host:1", "opening:neg", "sig:high_s", "sig:zero_s", "datum:other", "enc:x_plus_p_fits"]),
+         must_cover=["commit:0", "commit:1", "host:0", "host:1", "opening:neg", "sig:high_s", "sig:zero_s", "datum:other", "enc:x_plus_p_fits", "opening:lambda", "opening:neg_lambda", "sig:s_lambda", "sig:r_lambda",
+                     "pubkey:lambda"]),
 ]
